@@ -41,8 +41,8 @@ type opT struct {
 	ObAdd              bool // adds exactly one member when it completes
 	ObMayAdd, ObMayDel bool // may add / remove one member
 	AccAdd             bool // adds exactly one element to the closure's shared object
-	Inc                bool // increments the shared closure counter once
-	RecWrite           bool // may call the record's observer (which increments the counter)
+	Inc                int  // increments the shared closure counter this many times
+	RecWrite           int  // number of record writes (each may call the record's observer, which increments the counter)
 	Group              string
 }
 
@@ -66,7 +66,16 @@ var opTemplates = []opT{
 	{Name: "ob.CompareAndSet", Body: `log.Add('b', s.ob.CompareAndSet(#a, v, 'i_a'))`, ObWrite: true, Group: "ob"},
 	{Name: "ob.sub=", Body: `s.ob.sub = Object(v)`, ObWrite: true, ObMayAdd: true, Group: "ob"},
 	{Name: "ob.sub.Add", Body: `s.ob.sub.Add(v)`, Group: "ob"},
+	{Name: "ob.Sort!(lt)*4", Body: `for (i = 0; i < 4; ++i) { s.ob.Sort!({|x,y| String(x) > String(y) }); s.ob.Sort!({|x,y| String(x) < String(y) }) }`, ObWrite: true, Group: "ob"},
+	{Name: "ob.Sort!*4", Body: `for (i = 0; i < 4; ++i) { s.ob.Sort!(); s.ob.Reverse!() }`, ObWrite: true, Group: "ob"},
+	{Name: "ob[1]=*20", Body: `for (i = 0; i < 20; ++i) s.ob[1] = v`, ObWrite: true, ObMayAdd: true, Group: "ob"},
+	{Name: "ob.c=*20", Body: `for (i = 0; i < 20; ++i) s.ob.c = v`, ObWrite: true, ObMayAdd: true, Group: "ob"},
 	// shared object: readers
+	{Name: "ob[0]*30", Body: `for (i = 0; i < 30; ++i) x = s.ob[0]; log.Add('v', x)`, Group: "ob"},
+	{Name: "ob.c*30", Body: `for (i = 0; i < 30; ++i) x = s.ob.c; log.Add('v', x)`, Group: "ob"},
+	{Name: "iter ob*8", Body: `for (i = 0; i < 8; ++i) for x in s.ob { y = x }; log.Add('v', y)`, ObIter: true, Group: "ob"},
+	{Name: "ob.Has?*10", Body: `for (i = 0; i < 10; ++i) x = s.ob.Has?(v); log.Add('b', x)`, Group: "ob"},
+	{Name: "ob.Copy*8", Body: `for (i = 0; i < 8; ++i) { c = s.ob.Copy(); c.Add(v) }; log.Add('v', c)`, Group: "ob"},
 	{Name: "ob[0]", Body: `log.Add('v', s.ob[0])`, Group: "ob"},
 	{Name: "ob.a", Body: `log.Add('v', s.ob.a)`, Group: "ob"},
 	{Name: "ob.c", Body: `log.Add('v', s.ob.c)`, Group: "ob"},
@@ -90,20 +99,27 @@ var opTemplates = []opT{
 	{Name: "ob.BinarySearch(lt)", Body: `log.Add('s', s.ob.BinarySearch(v, {|x,y| String(x) < String(y) }))`, Group: "ob"},
 	{Name: "ob.sub", Body: `log.Add('v', s.ob.sub.Copy())`, Group: "ob"},
 	// shared record with rule and observer
-	{Name: "rec.a=", Body: `s.rec.a = v`, RecWrite: true, Group: "rec"},
-	{Name: "rec.b=", Body: `s.rec.b = v`, RecWrite: true, Group: "rec"},
-	{Name: "rec.d=", Body: `s.rec.d = v`, RecWrite: true, Group: "rec"},
+	{Name: "rec.a=", Body: `s.rec.a = v`, RecWrite: 1, Group: "rec"},
+	{Name: "rec.b=", Body: `s.rec.b = v`, RecWrite: 1, Group: "rec"},
+	{Name: "rec.d=", Body: `s.rec.d = v`, RecWrite: 1, Group: "rec"},
 	{Name: "rec.a", Body: `log.Add('v', s.rec.a)`, Group: "rec"},
+	{Name: "rec.a*30", Body: `for (i = 0; i < 30; ++i) x = s.rec.a; log.Add('v', x)`, Group: "rec"},
+	{Name: "rec.r*10", Body: `for (i = 0; i < 10; ++i) x = s.rec.r; log.Add('v', x)`, Group: "rec"},
+	{Name: "rec.a=*10", Body: `for (i = 0; i < 10; ++i) s.rec.a = (i % 2 is 0 ? v : v $ 'x')`, RecWrite: 10, Group: "rec"},
 	{Name: "rec.r", Body: `log.Add('v', s.rec.r)`, Group: "rec"},
 	{Name: "rec.zz", Body: `log.Add('v', s.rec.zz)`, Group: "rec"},
-	{Name: "rec.Invalidate", Body: `s.rec.Invalidate(#r)`, RecWrite: true, Group: "rec"},
+	{Name: "rec.Invalidate", Body: `s.rec.Invalidate(#r)`, RecWrite: 1, Group: "rec"},
 	{Name: "rec.Copy", Body: `log.Add('v', s.rec.Copy())`, Group: "rec"},
 	{Name: "for x in rec", Body: `for x in s.rec { log.Add('v', x) }`, Group: "rec"},
-	{Name: "rec.Delete_d", Body: `s.rec.Delete(#d)`, RecWrite: true, Group: "rec"},
+	{Name: "rec.Delete_d", Body: `s.rec.Delete(#d)`, RecWrite: 1, Group: "rec"},
 	{Name: "Pack(rec)", Body: `log.Add('v', Unpack(Pack(s.rec)))`, Group: "rec"},
 	{Name: "rec.Members", Body: `for x in s.rec.Members() { log.Add('k', x) }`, Group: "rec"},
 	// closures with shared slots
-	{Name: "inc()", Body: `(s.inc)()`, Inc: true, Group: "closure"},
+	{Name: "inc()", Body: `(s.inc)()`, Inc: 1, Group: "closure"},
+	{Name: "inc()*20", Body: `for (i = 0; i < 20; ++i) (s.inc)()`, Inc: 20, Group: "closure"},
+	{Name: "getn()*20", Body: `for (i = 0; i < 20; ++i) x = (s.getn)(); log.Add('n', x)`, Group: "closure"},
+	{Name: "setv()*20", Body: `for (i = 0; i < 20; ++i) (s.setv)(v)`, Group: "closure"},
+	{Name: "getv()*20", Body: `for (i = 0; i < 20; ++i) x = (s.getv)(); log.Add('v', x)`, Group: "closure"},
 	{Name: "getn()", Body: `log.Add('n', (s.getn)())`, Group: "closure"},
 	{Name: "setv()", Body: `(s.setv)(v)`, Group: "closure"},
 	{Name: "getv()", Body: `log.Add('v', (s.getv)())`, Group: "closure"},
@@ -120,6 +136,9 @@ var opTemplates = []opT{
 	{Name: "new cls", Body: `i2 = new s.cls; i2.M = v; log.Add('v', i2.G())`, Group: "class"},
 	{Name: "inst.M=", Body: `s.inst.M = v`, Group: "class"},
 	{Name: "inst.M", Body: `log.Add('v', s.inst.M)`, Group: "class"},
+	{Name: "inst.M*30", Body: `for (i = 0; i < 30; ++i) x = s.inst.M; log.Add('v', x)`, Group: "class"},
+	{Name: "inst.M=*20", Body: `for (i = 0; i < 20; ++i) s.inst.M = v`, Group: "class"},
+	{Name: "cls.L*20", Body: `for (i = 0; i < 20; ++i) for x in s.cls.L { y = x }; log.Add('v', y)`, Group: "class"},
 	{Name: "inst.G()", Body: `log.Add('v', s.inst.G())`, Group: "class"},
 	{Name: "inst.Copy", Body: `c = s.inst.Copy(); log.Add('v', c.M)`, Group: "class"},
 }
@@ -243,6 +262,7 @@ func runC43(c c43Case) (string, c43Stats) {
 		w, it := false, false
 		for _, step := range s {
 			domain[step.V] = true
+			domain[step.V+"x"] = true
 			o := opByName[step.Op]
 			w = w || o.ObWrite
 			it = it || o.ObIter
@@ -255,12 +275,8 @@ func runC43(c c43Case) (string, c43Stats) {
 			if o.ObMayDel {
 				attemptDel++
 			}
-			if o.Inc {
-				incs++
-			}
-			if o.RecWrite {
-				recWrites++
-			}
+			incs += o.Inc
+			recWrites += o.RecWrite
 			if o.AccAdd {
 				accAdds++
 			}
